@@ -959,6 +959,269 @@ def gen_dynamic(out):
 
 
 
+# ------------------------------------------------------------------------------------------------ create_formula (theory/body.py): operator -> formula object
+class Raised(Exception):
+    pass
+
+
+class FormExec:
+    """symbolic executor of create_formula for ONE concrete (operator name, number of arguments): name tests and len(args) tests are
+    decided, `lhs < 0` (count negative) is recorded as a rejection, `lhs == 0` becomes XIfZero; the result is the returned construction"""
+
+    def __init__(self, name, nargs, sets, kwname=None):
+        self.name, self.nargs, self.sets, self.kwname = name, nargs, sets, kwname
+        self.env = {}
+        self.neg_rejected = False
+        self.tel = {}          # id -> [op, lhs, rhs, fut_weak]
+
+    # --- values: ('f', gallina) formula, ('n', 'NOne'|'NArg') count, ('b', bool), ('s', str), ('none',), ('tel', id)
+    def const_test(self, e):
+        """decide a test that only depends on the operator name / the number of arguments / the keyword name"""
+        if isinstance(e, ast.BoolOp):
+            vs = [self.const_test(v) for v in e.values]
+            return all(vs) if isinstance(e.op, ast.And) else any(vs)
+        if isinstance(e, ast.Compare) and len(e.ops) == 1:
+            l, op, r = ast.unparse(e.left), e.ops[0], e.comparators[0]
+            if l in ('rep.name', 'arg.name') and isinstance(r, ast.Constant) and isinstance(r.value, str) and isinstance(op, (ast.Eq, ast.NotEq)):
+                cur = self.name if l == 'rep.name' else self.kwname
+                return (cur == r.value) == isinstance(op, ast.Eq)
+            if l == 'rep.name' and isinstance(op, ast.In) and ast.unparse(r) in self.sets:
+                return self.name in self.sets[ast.unparse(r)]
+            if l == 'len(args)' and isinstance(r, ast.Constant) and isinstance(op, ast.Eq):
+                return self.nargs == r.value
+            if l == 'rep.type' and isinstance(op, ast.Eq):
+                return ast.unparse(r).endswith('.Function')
+            if l == 'arg.type' and isinstance(op, ast.Eq):
+                return ast.unparse(r).endswith('.Symbol')
+        raise Unsupported('test ' + ast.unparse(e))
+
+    def unwrap(self, e):
+        while isinstance(e, ast.Call) and ast.unparse(e.func) == 'add_formula' and len(e.args) == 1:
+            e = e.args[0]
+        return e
+
+    def val(self, e):
+        e = self.unwrap(e)
+        src = ast.unparse(e)
+        if isinstance(e, ast.Constant):
+            if e.value is None:
+                return ('none',)
+            if isinstance(e.value, bool):
+                return ('b', e.value)
+            if isinstance(e.value, int):
+                if e.value != 1:
+                    raise Unsupported('count constant ' + src)
+                return ('n', 'NOne')
+            if isinstance(e.value, str):
+                return ('s', e.value)
+        if isinstance(e, ast.Name):
+            if e.id not in self.env:
+                raise Unsupported('unbound ' + e.id)
+            return self.env[e.id]
+        if src == 'rep.name':
+            return ('s', self.name)
+        if isinstance(e, (ast.Compare, ast.BoolOp)):
+            return ('b', self.const_test(e))
+        if isinstance(e, ast.IfExp):
+            t = ast.unparse(e.test)
+            if t == 'lhs == 0':
+                c = self.env.get('lhs')
+                if c == ('n', 'NOne'):
+                    return self.val(e.orelse)
+                if c == ('n', 'NArg'):
+                    return ('f', '(XIfZero %s %s)' % (self.fml(e.body), self.fml(e.orelse)))
+                raise Unsupported('lhs == 0 on a non-count')
+            return self.val(e.body if self.const_test(e.test) else e.orelse)
+        if isinstance(e, ast.Call):
+            f = ast.unparse(e.func)
+            a = e.args
+            if f == 'create_formula' and len(a) == 2 and ast.unparse(a[1]) == 'add_formula':
+                m = re.match(r'args\[(-?\d+)\]$', ast.unparse(a[0]))
+                if not m:
+                    raise Unsupported('create_formula argument ' + src)
+                i = int(m.group(1))
+                if i == -1 or i == self.nargs - 1:
+                    return ('f', 'XRhs')
+                if i == 0 and self.nargs == 2:
+                    return ('f', 'XLhs')
+                raise Unsupported('argument index ' + src)
+            if f == 'create_number' and ast.unparse(a[0]) == 'args[0]' and self.nargs == 2:
+                return ('n', 'NArg')
+            if f in ('Previous', 'Next') and len(a) == 3:
+                n, w = self.val(a[1]), self.val(a[2])
+                if n[0] != 'n' or w[0] != 'b':
+                    raise Unsupported('prefix arguments ' + src)
+                return ('f', '(%s %s %s %s)' % ('XPrev' if f == 'Previous' else 'XNext', self.fml(a[0]), n[1], 'true' if w[1] else 'false'))
+            if f == 'BooleanFormula' and len(a) == 3:
+                o = self.val(a[0])
+                if o[0] != 's' or o[1] not in BOOLOP:
+                    raise Unsupported('connective ' + src)
+                return ('f', '(XBool %s %s %s)' % (BOOLOP[o[1]], self.fml(a[1]), self.fml(a[2])))
+            if f == 'Negation' and len(a) == 1:
+                return ('f', '(XNeg %s)' % self.fml(a[0]))
+            if f == 'Initially' and len(a) == 1:
+                return ('f', '(XInit %s)' % self.fml(a[0]))
+            if f in ('TelFormulaP', 'TelFormulaN') and len(a) == 3:
+                o = self.val(a[0])
+                TOP = {'<?': 'OpSince', '<*': 'OpTrigger', '>?': 'OpUntil', '>*': 'OpRelease'}
+                if o[0] != 's' or o[1] not in TOP or (o[1][0] == '<') != (f == 'TelFormulaP'):
+                    raise Unsupported('temporal operator ' + src)
+                l = self.val(a[1])
+                lhs = 'None' if l == ('none',) else '(Some %s)' % self.fml(a[1])
+                if f == 'TelFormulaP':
+                    return ('f', '(XTelP %s %s %s)' % (TOP[o[1]], lhs, self.fml(a[2])))
+                k = len(self.tel)
+                self.tel[k] = [TOP[o[1]], lhs, self.fml(a[2]), None]
+                return ('tel', k)
+            if f == 'Atom' and len(a) == 3 and ast.unparse(a[1]) == '[]' and ast.unparse(a[2]) == 'True':
+                n = self.val(a[0])
+                if n[0] != 's':
+                    raise Unsupported('atom name ' + src)
+                return ('f', '(XAtomKw %s)' % coq_str(n[1]))
+            if f == 'BooleanConstant' and len(a) == 1:
+                b = self.val(a[0])
+                if b[0] != 'b':
+                    raise Unsupported('constant ' + src)
+                return ('f', '(XConst %s)' % ('true' if b[1] else 'false'))
+            if f == "'__{}'.format" and len(a) == 1 and ast.unparse(a[0]) == 'arg.name':
+                return ('s', '__' + self.kwname)
+        raise Unsupported('expression ' + src[:120])
+
+    def fml(self, e):
+        v = self.val(e)
+        if v[0] == 'f':
+            return v[1]
+        if v[0] == 'tel':
+            t = self.tel[v[1]]
+            if t[3] is None:
+                raise Unsupported('until/release without set_future')
+            return '(XTelN %s %s %s %s)' % (t[0], t[1], t[2], 'true' if t[3] else 'false')
+        if v == ('none',):
+            raise Raised()      # None where a formula is needed: a combination the theory grammar never produces (it would fail at run time)
+        raise Unsupported('formula expected: ' + ast.unparse(e)[:80])
+
+    def run(self, stmts):
+        """returns the Gallina construction returned by the function; raises Raised if the function raises"""
+        for st in stmts:
+            if isinstance(st, ast.Expr) and isinstance(st.value, ast.Constant):
+                continue
+            if isinstance(st, ast.Assert):
+                if not self.const_test(st.test):
+                    raise Raised()
+                continue
+            if isinstance(st, ast.Raise):
+                raise Raised()
+            if isinstance(st, ast.Assign) and len(st.targets) == 1 and isinstance(st.targets[0], ast.Name):
+                t = st.targets[0].id
+                if t == 'args' and ast.unparse(st.value) == 'rep.arguments':
+                    continue
+                if t == 'arg' and ast.unparse(st.value) == 'rep.arguments[0]':
+                    continue
+                self.env[t] = self.val(st.value)
+                continue
+            if isinstance(st, ast.If):
+                if ast.unparse(st.test) == 'lhs < 0':
+                    if not (len(st.body) == 1 and isinstance(st.body[0], ast.Raise)) or st.orelse:
+                        raise Unsupported('negative-count guard')
+                    if self.env.get('lhs') == ('n', 'NArg'):
+                        self.neg_rejected = True
+                    elif self.env.get('lhs') != ('n', 'NOne'):
+                        raise Unsupported('lhs < 0 on a non-count')
+                    continue
+                r = self.run(st.body if self.const_test(st.test) else st.orelse)
+                if r is not None:
+                    return r
+                continue
+            if isinstance(st, ast.Return):
+                return self.fml(st.value)
+            if isinstance(st, ast.Expr) and isinstance(st.value, ast.Call) and isinstance(st.value.func, ast.Attribute) and st.value.func.attr == 'set_future':
+                tgt = self.env.get(ast.unparse(st.value.func.value))
+                a = self.unwrap(st.value.args[0])
+                if not (tgt and tgt[0] == 'tel' and isinstance(a, ast.Call) and ast.unparse(a.func) == 'Next' and len(a.args) == 3
+                        and ast.unparse(a.args[0]) == ast.unparse(st.value.func.value) and ast.unparse(a.args[1]) == '1' and isinstance(a.args[2], ast.Constant)
+                        and isinstance(a.args[2].value, bool)):
+                    raise Unsupported('set_future shape ' + ast.unparse(st)[:120])
+                self.tel[tgt[1]][3] = a.args[2].value
+                continue
+            raise Unsupported('create_formula statement ' + ast.unparse(st)[:120])
+        return None
+
+
+def gen_bodyform(out):
+    F = parse('telingo/theory/formula.py')
+    B = parse('telingo/theory/body.py')
+    sets = {}
+    for st in F.body:
+        if isinstance(st, ast.Assign) and isinstance(st.value, ast.Set) and all(isinstance(e, ast.Constant) for e in st.value.elts):
+            sets[ast.unparse(st.targets[0])] = sorted(e.value for e in st.value.elts)
+    for need in ('g_binary_operators', 'g_unary_operators', 'g_tel_operators', 'g_arithmetic_operators'):
+        if need not in sets:
+            raise Unsupported('operator set ' + need)
+    cf = find_fun(B, 'create_formula')
+    rows = []
+    names = sorted(set(sets['g_binary_operators']) | set(sets['g_unary_operators']) | set(sets['g_tel_operators']))
+    for name in names:
+        for nargs in (1, 2):
+            ex = FormExec(name, nargs, sets)
+            try:
+                r = ex.run(cf.body)
+            except Raised:
+                r = None
+            except Unsupported as e:
+                # combinations the theory grammar never produces (e.g. a binary connective with one argument) fall through to create_atom
+                if 'create_formula statement return create_atom' in str(e) or 'expression create_atom' in str(e):
+                    r = None
+                else:
+                    raise
+            if r is not None:
+                rows.append('  | %s, %d => Some (%s, %s)' % (coq_str(name), nargs, 'true' if ex.neg_rejected else 'false', r))
+    lines = ['(* ---- telingo/theory/body.py: create_formula - which formula object every operator builds (per number of arguments);',
+             '        the Boolean says whether a negative count is rejected ---- *)',
+             'Definition create_formula_gen (op : string) (nargs : nat) : option (bool * fexp) :=\n  match op, nargs with\n' + '\n'.join(rows) + '\n  | _, _ => None\n  end.']
+    kws = []
+    for kw in ('initial', 'final', 'true', 'false', 'foo'):
+        ex = FormExec('&', 1, sets, kwname=kw)
+        try:
+            r = ex.run(cf.body)
+        except Raised:
+            r = None
+        if r is not None:
+            kws.append('  | %s => Some %s' % (coq_str(kw), r))
+    lines.append('Definition keyword_gen (name : string) : option fexp :=\n  match name with\n' + '\n'.join(kws) + '\n  | _ => None\n  end.')
+    # create_number: the evaluation of counts
+    cn = find_fun(F, 'create_number')
+    src = ast.unparse(cn)
+    c = Ctx({'lhs': 'Z', 'rhs': 'Z', 'v': 'Z', 'n': 'Z'}, subst={'create_number(rep.arguments[0])': 'v', 'rep.number': 'n'})
+    una = bin_add = bin_sub = leaf = leafg = None
+    for n in ast.walk(cn):
+        if isinstance(n, ast.If):
+            t = ast.unparse(n.test)
+            if t == "rep.name == '-' and len(args) == 1" and len(n.body) == 1 and isinstance(n.body[0], ast.Return):
+                una = num(c, n.body[0].value)
+            if t == "rep.name == '+'" and len(n.body) == 1 and isinstance(n.body[0], ast.Return):
+                bin_add = num(c, n.body[0].value)
+                if len(n.orelse) == 1 and isinstance(n.orelse[0], ast.If) and ast.unparse(n.orelse[0].test) == "rep.name == '-'" and isinstance(n.orelse[0].body[0], ast.Return):
+                    bin_sub = num(c, n.orelse[0].body[0].value)
+            if t.startswith('rep.type == _clingo.TheoryTermType.Number') and len(n.body) == 1 and isinstance(n.body[0], ast.Return):
+                leaf = num(c, n.body[0].value)
+                g = n.test.values[1:] if isinstance(n.test, ast.BoolOp) and isinstance(n.test.op, ast.And) else []
+                leafg = boolx(c, g[0]) if len(g) == 1 else ('(Some true)' if not g else None)
+    for need in ('lhs = create_number(rep.arguments[0])', 'rhs = create_number(rep.arguments[1])', 'if rep.name in g_arithmetic_operators and len(args) == 2:',
+                 "raise RuntimeError('number expected: {}'.format(rep))"):
+        if need not in src:
+            raise Unsupported('create_number shape: ' + need)
+    if None in (una, bin_add, bin_sub, leaf, leafg):
+        raise Unsupported('create_number branches')
+    lines.append('(* ---- telingo/theory/formula.py: create_number ---- *)')
+    lines.append('Definition num_leaf_gen (n : Z) : option Z := match %s with Some true => %s | _ => None end.' % (leafg, leaf))
+    lines.append('Definition num_neg_gen (v : Z) : option Z := %s.' % una)
+    lines.append('Definition num_add_gen (lhs rhs : Z) : option Z := %s.' % bin_add)
+    lines.append('Definition num_sub_gen (lhs rhs : Z) : option Z := %s.' % bin_sub)
+    lines.append('Definition arithmetic_operators_gen : list string := [%s].' % '; '.join(coq_str(x) for x in sets['g_arithmetic_operators']))
+    out.append('\n'.join(lines))
+
+
+
 # ------------------------------------------------------------------------------------------------ main
 # group -> (generated file under coq/Gen, fragment functions, Requires)
 GROUPS = {
@@ -968,6 +1231,7 @@ GROUPS = {
     'tables': ('FromTables.v', [gen_tables], ['GenPrelude']),
     'theory': ('FromTheory.v', [gen_theory], ['GenPrelude', 'TheoryPrelude']),
     'dynamic': ('FromDynamic.v', [gen_dynamic], ['GenPrelude', 'TheoryPrelude', 'DynPrelude']),
+    'bodyform': ('FromBodyForm.v', [gen_bodyform], ['GenPrelude', 'TheoryPrelude', 'FormPrelude']),
 }
 VERIF = os.path.dirname(os.path.dirname(os.path.abspath(__file__)))
 GEN = os.path.join(VERIF, 'coq', 'Gen')
